@@ -5,8 +5,10 @@
 package main
 
 import (
+	"bytes"
 	"encoding/json"
 	"fmt"
+	"os"
 	"runtime"
 	"sort"
 	"strings"
@@ -20,6 +22,64 @@ import (
 
 	"verifharness/mbt"
 )
+
+// ---------------------------------------------------------------- input: typed decoding (one behaviour per line)
+
+type projT struct {
+	Nil   bool   `json:"nil"`
+	Size  int    `json:"size"`
+	Bits  string `json:"bits"`
+	Empty bool   `json:"empty"`
+	Full  bool   `json:"full"`
+	Tidx  []int  `json:"tidx"`
+	Bytes []int  `json:"bytes"`
+	Ntb   []int  `json:"ntb"`
+}
+
+type stepT struct {
+	Act   string `json:"act"`
+	D     string `json:"d"`
+	A     string `json:"a"`
+	B     string `json:"b"`
+	Sz    int    `json:"sz"`
+	I     int    `json:"i"`
+	V     bool   `json:"v"`
+	Reply bool   `json:"reply"`
+	St    projT  `json:"st"`
+}
+
+type behT struct {
+	steps []stepT
+	raw   []json.RawMessage
+}
+
+func decodeBeh(line []byte) behT {
+	var b behT
+	if err := json.Unmarshal(line, &b.raw); err != nil {
+		mbt.Die("bad behaviour line: %v", err)
+	}
+	b.steps = make([]stepT, len(b.raw))
+	for i, r := range b.raw {
+		if err := json.Unmarshal(r, &b.steps[i]); err != nil {
+			mbt.Die("bad step: %v", err)
+		}
+	}
+	return b
+}
+
+func readLines(path string) [][]byte {
+	bz, err := os.ReadFile(path)
+	if err != nil {
+		mbt.Die("%v", err)
+	}
+	var out [][]byte
+	for _, l := range bytes.Split(bz, []byte{'\n'}) {
+		if len(l) > 0 {
+			out = append(out, l)
+		}
+	}
+	return out
+}
 
 // ---------------------------------------------------------------- reporting: smallest case per failing class
 
@@ -35,12 +95,12 @@ var (
 	best  = map[string]cand{}
 )
 
-func report(key, what string, beh []mbt.Step, upto, bi int) {
+func report(key, what string, beh behT, upto, bi int) {
 	r := [2]int{upto + 1, bi}
 	repMu.Lock()
 	hits[key]++
 	if b, ok := best[key]; !ok || r[0] < b.rank[0] || (r[0] == b.rank[0] && r[1] < b.rank[1]) {
-		best[key] = cand{what, map[string]any{"steps": beh[:upto+1]}, r}
+		best[key] = cand{what, map[string]any{"steps": beh.raw[:upto+1]}, r}
 	}
 	repMu.Unlock()
 }
@@ -103,18 +163,8 @@ type exp struct {
 	ntb         []int
 }
 
-func parseExp(st map[string]any) exp {
-	e := exp{isNil: st["nil"].(bool), size: int(st["size"].(float64)), bits: st["bits"].(string)}
-	if v, ok := st["empty"].(bool); ok {
-		e.empty = v
-	}
-	if v, ok := st["full"].(bool); ok {
-		e.full = v
-	}
-	e.tidx = mbt.Ints(st["tidx"])
-	e.bytes = mbt.Ints(st["bytes"])
-	e.ntb = mbt.Ints(st["ntb"])
-	return e
+func parseExp(st projT) exp {
+	return exp{isNil: st.Nil, size: st.Size, bits: st.Bits, empty: st.Empty, full: st.Full, tidx: st.Tidx, bytes: st.Bytes, ntb: st.Ntb}
 }
 
 type tierCfg struct{ fullPick bool }
@@ -206,7 +256,7 @@ func compareBA(b *bitarray.BitArray, e exp, deep bool, skipNilBytes ...bool) (fi
 		for _, i := range e.tidx {
 			set[i] = true
 		}
-		draws := 48
+		draws := 12
 		cover := len(e.tidx) <= 16 || tcfg.fullPick
 		if cover {
 			draws = 40*len(e.tidx) + 8
@@ -338,15 +388,15 @@ func shapeTag(x, y *bitarray.BitArray) string {
 	return "same-size"
 }
 
-func replay(beh []mbt.Step, bi int) {
+func replay(beh behT, bi int) {
 	e := &env{regs: map[string]*bitarray.BitArray{}, want: map[string]exp{}, origin: map[string]string{},
 		cregs: map[string]*cba.CompactBitArray{}, cwant: map[string]exp{}}
 	nilExp := exp{isNil: true, empty: true, full: true}
-	for idx, s := range beh {
+	for idx, s := range beh.steps {
 		atomic.AddInt64(&counters.steps, 1)
-		act, d, xa, ya := s.Act(), s.Str("d"), s.Str("a"), s.Str("b")
-		ex := parseExp(s["st"].(map[string]any))
-		rep := func(key, what string) { report(key, fmt.Sprintf("step %d %s(d=%s a=%s b=%s i=%d): %s", idx, act, d, xa, ya, s.Int("i"), what), beh, idx, bi) }
+		act, d, xa, ya := s.Act, s.D, s.A, s.B
+		ex := parseExp(s.St)
+		rep := func(key, what string) { report(key, fmt.Sprintf("step %d %s(d=%s a=%s b=%s i=%d): %s", idx, act, d, xa, ya, s.I, what), beh, idx, bi) }
 		if strings.HasPrefix(act, "C") && act != "Copy" {
 			e.compactStep(s, ex, rep)
 			continue
@@ -365,10 +415,10 @@ func replay(beh []mbt.Step, bi int) {
 		switch act {
 		case "New":
 			do = func() *bitarray.BitArray {
-				b := bitarray.NewBitArray(s.Int("sz"))
+				b := bitarray.NewBitArray(s.Sz)
 				for i := range ex.bits {
 					if ex.bits[i] == 'x' && !b.SetIndex(i, true) {
-						rep("C48:SetIndex:refused", fmt.Sprintf("SetIndex(%d, true) returned false on a fresh %d-bit array", i, s.Int("sz")))
+						rep("C48:SetIndex:refused", fmt.Sprintf("SetIndex(%d, true) returned false on a fresh %d-bit array", i, s.Sz))
 					}
 				}
 				return b
@@ -378,8 +428,8 @@ func replay(beh []mbt.Step, bi int) {
 		case "Set":
 			do = func() *bitarray.BitArray {
 				b := e.regs[d]
-				if got := b.SetIndex(s.Int("i"), s.Bool("v")); got != s.Bool("reply") {
-					rep("C48:SetIndex:reply", fmt.Sprintf("SetIndex(%d) returned %v, want %v on %s", s.Int("i"), got, s.Bool("reply"), show(e.want[d])))
+				if got := b.SetIndex(s.I, s.V); got != s.Reply {
+					rep("C48:SetIndex:reply", fmt.Sprintf("SetIndex(%d) returned %v, want %v on %s", s.I, got, s.Reply, show(e.want[d])))
 				}
 				return b
 			}
@@ -396,7 +446,7 @@ func replay(beh []mbt.Step, bi int) {
 		default:
 			mbt.Die("unknown act %q", act)
 		}
-		key := fmt.Sprintf("%s|%s|%s|%d|%v", act, show(e.want[xa]), show(e.want[ya]), s.Int("i"), s.Bool("v"))
+		key := fmt.Sprintf("%s|%s|%s|%d|%v", act, show(e.want[xa]), show(e.want[ya]), s.I, s.V)
 		if act == "New" || act == "Empty" {
 			key = act + "|" + show(ex)
 		}
@@ -634,8 +684,8 @@ func buildC(bits string, isNil bool) *cba.CompactBitArray {
 	return b
 }
 
-func (e *env) compactStep(s mbt.Step, ex exp, rep func(key, what string)) {
-	act, d, xa := s.Act(), s.Str("d"), s.Str("a")
+func (e *env) compactStep(s stepT, ex exp, rep func(key, what string)) {
+	act, d, xa := s.Act, s.D, s.A
 	nilExp := exp{isNil: true}
 	for _, r := range []string{d, xa} {
 		if r != "" {
@@ -648,7 +698,7 @@ func (e *env) compactStep(s mbt.Step, ex exp, rep func(key, what string)) {
 	do := func() {
 		switch act {
 		case "CNew":
-			res = cba.NewCompactBitArray(s.Int("sz"))
+			res = cba.NewCompactBitArray(s.Sz)
 			for i := range ex.bits {
 				if ex.bits[i] == 'x' && !res.SetIndex(i, true) {
 					rep("C48:Compact.SetIndex:refused", fmt.Sprintf("SetIndex(%d, true) returned false on a fresh array", i))
@@ -658,8 +708,8 @@ func (e *env) compactStep(s mbt.Step, ex exp, rep func(key, what string)) {
 			res = buildC("", false)
 		case "CSet":
 			res = e.cregs[d]
-			if got := res.SetIndex(s.Int("i"), s.Bool("v")); got != s.Bool("reply") {
-				rep("C48:Compact.SetIndex:reply", fmt.Sprintf("SetIndex(%d) returned %v, want %v on %s", s.Int("i"), got, s.Bool("reply"), show(e.cwant[d])))
+			if got := res.SetIndex(s.I, s.V); got != s.Reply {
+				rep("C48:Compact.SetIndex:reply", fmt.Sprintf("SetIndex(%d) returned %v, want %v on %s", s.I, got, s.Reply, show(e.cwant[d])))
 			}
 		case "CCopy":
 			res = e.cregs[xa].Copy()
@@ -671,7 +721,7 @@ func (e *env) compactStep(s mbt.Step, ex exp, rep func(key, what string)) {
 		rep("C48:Compact."+act[1:]+":panic", fmt.Sprintf("panicked: %v at %s", val, mbt.ShortStack(st)))
 		res = buildC(ex.bits, ex.isNil)
 	}
-	key := fmt.Sprintf("%s|%s|%s|%d|%v", act, show(ex), show(e.cwant[xa]), s.Int("i"), s.Bool("v"))
+	key := fmt.Sprintf("%s|%s|%s|%d|%v", act, show(ex), show(e.cwant[xa]), s.I, s.V)
 	if _, dup := distinct.LoadOrStore(key, true); !dup && !ex.isNil {
 		atomic.AddInt64(&counters.nontrivial, 1)
 	}
@@ -705,18 +755,15 @@ func (e *env) compactStep(s mbt.Step, ex exp, rep func(key, what string)) {
 func main() {
 	f := mbt.ParseFlags()
 	tcfg.fullPick = f.Tier == "thorough"
-	behs, err := mbt.ReadBehaviours(f.In)
-	if err != nil {
-		mbt.Die("%v", err)
-	}
+	lines := readLines(f.In)
 	var wg sync.WaitGroup
 	nw := runtime.NumCPU()
 	for w := 0; w < nw; w++ {
 		wg.Add(1)
 		go func(w int) {
 			defer wg.Done()
-			for i := w; i < len(behs); i += nw {
-				replay(behs[i], i)
+			for i := w; i < len(lines); i += nw {
+				replay(decodeBeh(lines[i]), i)
 			}
 		}(w)
 	}
@@ -729,10 +776,10 @@ func main() {
 	for _, k := range keys {
 		mbt.Mismatch(k, best[k].what, best[k].c)
 	}
-	for i := 0; i < len(behs) && i < 2; i++ {
-		mbt.Sample(behs[len(behs)-1-i])
+	for i := 0; i < len(lines) && i < 2; i++ {
+		mbt.Sample(json.RawMessage(lines[len(lines)-1-i]))
 	}
-	sm := map[string]any{"behaviours": len(behs), "replays": len(behs), "steps": counters.steps, "reads": counters.reads,
+	sm := map[string]any{"behaviours": len(lines), "replays": len(lines), "steps": counters.steps, "reads": counters.reads,
 		"self_calls": counters.selfCalls, "self_calls_with_copy_after_deadlock": counters.selfSkipped,
 		"distinct_nontrivial": counters.nontrivial}
 	for k, v := range hits {
